@@ -591,6 +591,36 @@ fn count_maps() -> usize {
 
 /// Load `bytes` (a corrupted / truncated / foreign file) `reps` times with the given loader and report
 /// the growth of live heap bytes and of the number of memory mappings.
+/// One load of a file holding exactly `bytes` through a file-backed entry point: outcome and error kind.
+pub fn fload_generic<T>(bytes: &[u8], loader: &str) -> String
+where
+    T: Deserialize,
+    for<'a> DeserType<'a, T>: Send + Sync,
+{
+    let path = tmp_path("fload");
+    std::fs::write(&path, bytes).unwrap();
+    let run = |p: &std::path::Path| -> Result<(), String> {
+        let e = |e: anyhow::Error| match e.downcast_ref::<epserde::deser::Error>() {
+            Some(d) => crate::err_string(d),
+            None => format!("err other {}", e.to_string().replace(' ', "_")),
+        };
+        match loader {
+            "full" => T::load_full(p).map(|_| ()).map_err(e),
+            "mem" => T::load_mem(p).map(|c| drop(c)).map_err(e),
+            "mmap" => T::load_mmap(p, Flags::empty()).map(|c| drop(c)).map_err(e),
+            "map" => T::mmap(p, Flags::empty()).map(|c| drop(c)).map_err(e),
+            _ => Err("err badloader".into()),
+        }
+    };
+    let r = crate::catch(|| run(&path));
+    let _ = std::fs::remove_file(&path);
+    match r {
+        Some(Ok(())) => "fload ok".into(),
+        Some(Err(s)) => format!("fload {}", s),
+        None => "fload panic".into(),
+    }
+}
+
 pub fn leak_generic<T>(bytes: &[u8], loader: &str, reps: usize) -> String
 where
     T: Deserialize,
